@@ -69,7 +69,7 @@ pub fn go(cli: Cli, stdout: Out, stderr: Out, stdin: StdinFactory) -> (r: Result
 pub mod m {
 use super::*;
 //@@ fn main.main = src/main.rs :: fn main
-//@@ safety C20
+//@@ safety C20 C14
 //@@ rewrite main_stdout main_stderr main_stdin rc_refcell_new eprintln_disp println_disp process_exit
 //@@ header
     ensures
